@@ -1,5 +1,7 @@
 import RactorModel.Lemmas.Session
 import RactorModel.Lemmas.MultiSession
+import RactorModel.Lemmas.Transitive
+import RactorModel.Extracted
 
 /-!
 # C17 — nothing from a peer takes effect before authentication
@@ -395,17 +397,106 @@ theorem no_relay_never_authenticated_partial (cookie cookie' : C)
       cases op with
       | «open» a b c d e => simpa [noServerChallenge] using hns
       | input k env i => simpa [noServerChallenge] using hns
+      | deauth ks => simpa [noServerChallenge] using hns
     have hs := quiet_step H cookie' n op (by rw [hc]; exact hsep) hq ⟨hl.1, trivial⟩ hns1.1
     simp only [Multi.run, List.mem_cons] at hne
     rcases hne with rfl | hne
     · exact ⟨hs.2, hs.1.2.1, hs.1.2.2⟩
     · exact ih _ (by rw [step_cookie, hc]) hs.1 hl.2 hns1.2 ne hne
 
+omit [DecidableEq D] in
 /-- the fresh node is `Quiet` -/
 theorem empty_quiet (cookie : C) : Quiet H (Multi.empty cookie : Node C D) :=
   ⟨empty_inv H cookie, by intro p hp; simp [Multi.empty] at hp, rfl⟩
 
+/-- (clause "sessions are listed only after the handshake", NodeServer side) `GetSessions` answers
+from `authenticated_sessions`; a session enters that set only through the `ConnectionAuthenticated`
+cast, which the session sends only in the step that completes its handshake (`gate`), and leaves it
+whenever the `NodeServer` says so (election losers, cleanup). Hence, for every run of the node —
+any number of sessions, any interleaving, any peer —: every session `GetSessions` lists exists and
+has completed the challenge handshake. -/
+theorem listed_sessions_completed_the_handshake (cookie : C) (ops : List (Op D)) :
+    ∀ k ∈ getSessions (nodeAfter H (Multi.empty cookie : Node C D) ops),
+      ∃ cfg st, (nodeAfter H (Multi.empty cookie : Node C D) ops).sessions[k]? = some (cfg, st) ∧
+        st.auth.isOk = true :=
+  listedOk_nodeAfter H ops _ (by intro k hk; simp [Multi.empty] at hk)
+
 end
+
+/-! ### authentication frames AFTER authentication
+
+`auth_violation_stops_session` needs `hno : st.auth.isOk = false`. What the code does with an
+authentication frame on an ALREADY authenticated session (`handle_auth`: `if state.auth.is_ok()
+{ return; }`, node_session.rs) is the complement: nothing — no effect, no state change, and in
+particular the session is NOT closed. Read literally ("any … out-of-order … authentication message
+closes the session") this is a deviation; it is not counted as a violation of C17 because the
+clause protects the way INTO the authenticated state ("… and it can never become authenticated
+afterwards") and such a frame has no effect whatsoever. -/
+
+section
+variable {C D : Type} [DecidableEq D] (H : C → Nat → D)
+
+/-- (what the code does) On a live authenticated session every authentication frame — of any kind,
+with any digest — is ignored: same state, no effect; the session stays up and authenticated. -/
+theorem auth_frame_after_authentication_is_ignored (cfg : Cfg C) (st : SState D) (env : Env) (m : Msg D)
+    (hlive : st.stopped = false) (hself : selfConnection cfg st = false) (hok : st.auth.isOk = true) :
+    handle H cfg st env (.frame (.auth m)) = (st, []) := by
+  simp [handle, hlive, hself, onAuthFrame, handleAuth, hok]
+
+end
+
+/-- a toy digest for the examples below -/
+def toyHH (cookie : Nat) (c : Nat) : Nat := cookie * 1000 + c
+
+/-! ### the transitive dial (`NodeConnectionMode::Transitive`, the node-list exchange) -/
+
+section
+variable {C D : Type} [DecidableEq D] (H : C → Nat → D)
+
+/-- (a peer's list makes this node dial only unknown peers, only after authentication, never itself)
+Whatever the state, the environment and the input: the session asks for a connection to `addr` only
+if it IS authenticated (before this very input), runs in `Transitive` mode, the input is a
+`NodeSessions` frame, and `addr` is the connection string of a listed peer `p` that is not this node
+(neither by name nor by connection string) and that matches no session `GetSessions` lists (neither
+its name nor its connection string equals a listed name or connection string). -/
+theorem transitive_dials_only_unknown_peers (cfg : Cfg C) (st : SState D) (env : Env) (i : In D) (addr : String)
+    (h : Effect.connect addr ∈ (handle H cfg st env i).2) :
+    st.auth.isOk = true ∧ cfg.transitive = true ∧
+    ∃ peers, i = .frame (.control (.nodeSessions peers)) ∧ ∃ p ∈ peers, p.2 = addr ∧
+      p.1 ≠ cfg.thisName ∧ p.2 ≠ cfg.thisConn ∧
+      ∀ ss, env.sessions = some ss → ∀ s ∈ ss, p.1 ≠ s.1 ∧ p.1 ≠ s.2 ∧ p.2 ≠ s.1 ∧ p.2 ≠ s.2 :=
+  handle_connect H cfg st env i addr h
+
+/-- non-vacuity: an authenticated transitive session told about {itself, a connected peer, a new
+peer} dials exactly the new one. -/
+example :
+    (handle toyHH { isServer := true, cookie := 7, thisName := "a@h", thisConn := "h:1", transitive := true, connId := 0 }
+      { auth := .server (.ok 0), name := some ("b@h", "h:2"), connId := 0, ready := .ready, proxies := [],
+        advertised := [], monitoring := true, stopped := false }
+      { check := .failed, elected := false, fresh := 0, localPids := [], groups := [], remotable := fun _ => false,
+        sessions := some [("b@h", "h:2")] }
+      (.frame (.control (.nodeSessions [("a@h", "x:1"), ("c@h", "h:1"), ("b@h", "h:9"), ("d@h", "h:2"), ("e@h", "h:3")])))).2
+    = [.notify .getSessions, .connect "h:3"] := by decide
+
+end
+
+/-! ### every way a session is created goes through the same gate (source facts, E-SRC)
+
+`client::connect`, `client::connect_enc` and `client::connect_external` do nothing but cast
+`ConnectionOpened{,External} { is_server: false }` to the `NodeServer`; the listener casts the same
+messages with `is_server: true`. Both arms of `NodeServer::handle` build the session with
+`NodeSession::new(node_id, is_server, self.cookie.clone(), …)` — the `Op.open` of
+`Model/MultiSession.lean`. The extractor reads this off the sources on every run. -/
+
+theorem client_connects_only_open_a_client_session :
+    Extracted.clientConnectCasts =
+      [("connect", "ConnectionOpened", "false"), ("connect_enc", "ConnectionOpened", "false"),
+       ("connect_external", "ConnectionOpenedExternal", "false")] := by decide
+
+theorem every_session_is_created_with_the_node_cookie :
+    Extracted.sessionCreationSites =
+      [("ConnectionOpened", "self.cookie.clone()", "is_server"),
+       ("ConnectionOpenedExternal", "self.cookie.clone()", "is_server")] := by decide
 
 /-! ### the witness: the full statement is FALSE of the code (finding F9) -/
 
@@ -459,6 +550,9 @@ theorem reflection_authenticates_without_cookie :
       exact Or.inl (by decide)
     · intro d h; simp [digestOf] at h
 
+/-- … and `GetSessions` lists both sessions of the cookie-less peer. -/
+example : getSessions (nodeAfter pairH (Multi.empty 7 : Node Nat (Nat × Nat)) reflectionOps) = [0, 1] := by decide
+
 /-- non-vacuity of `no_relay_never_authenticated_partial`: a run with two inbound sessions on which
 the peer replays and guesses; hypotheses hold, and the conclusion is about a non-trivial run. -/
 example :
@@ -474,6 +568,11 @@ end
 #print axioms C17.authentication_only_by_cookie_or_reflection
 #print axioms C17.no_relay_never_authenticated_partial
 #print axioms C17.empty_quiet
+#print axioms C17.transitive_dials_only_unknown_peers
+#print axioms C17.client_connects_only_open_a_client_session
+#print axioms C17.every_session_is_created_with_the_node_cookie
+#print axioms C17.auth_frame_after_authentication_is_ignored
+#print axioms C17.listed_sessions_completed_the_handshake
 #print axioms C17.reflection_authenticates_without_cookie
 
 /-! ## non-vacuity -/
